@@ -153,54 +153,80 @@ def chacha_dec(key, nonce, aad, ct, tag):
         return []
 
 
-# ---- cbor2 on untrusted Byron address bytes, per expected shape ----
+# ---- untrusted Byron address bytes, per expected shape ----
+# The library reads them with cbor2; these oracles answer with the harness's OWN CBOR reader (harness/cborref.py), so
+# that the correspondence run sees where cbor2 is more lenient than RFC 8949 well-formedness plus the address shape:
+#   outer   : exactly one item (nothing may follow), an array [tag (any number) around a byte string, unsigned int]
+#   payload : exactly one item, an array [byte string, map, unsigned int]; the map has at most two entries and, if not
+#             empty, key 1 or key 2; every value a byte string.  The value under 2 (network magic) is never used by the
+#             decoder: its only requirement is that cbor2.loads does not raise on it, and that is what is asked here
+#             (cbor2 also raises on some well-formed items, e.g. OverflowError on [2^64-1, 0] -- no RFC notion)
+#   attr 1  : its FIRST item (the library still uses cbor2.loads here: what follows is ignored): a byte string -> its
+#             content; null -> nothing (the library then has no HD path)
+import cborref as _cb
 
-def _loads(b):
+
+def _cbor2_loads_ok(b):
     import cbor2
     try:
-        return True, cbor2.loads(bytes(b))
+        cbor2.loads(bytes(b))
+        return True
     except Exception:  # noqa  -- any failure of the third-party decoder
-        return False, None
+        return False
+
+
+def _uint(v):
+    """an unsigned integer of CBOR's data model: major type 0, or a bignum (tag 2 around a byte string, RFC 8949
+    section 3.4.3: the same integer, which cbor2 indeed hands back as an int); returns the value or None"""
+    if isinstance(v, int) and not isinstance(v, bool) and v >= 0:
+        return v
+    if isinstance(v, _cb.CbTag) and v.tag == 2 and isinstance(v.value, bytes):
+        return int.from_bytes(v.value, "big")
+    return None
 
 
 def byron_parse_outer(b):
-    import cbor2
-    ok, v = _loads(b)
-    if not ok or not isinstance(v, (list, tuple)) or len(v) != 2:
+    try:
+        v = _cb.cb_one(bytes(b))
+    except ValueError:
+        return []
+    if not isinstance(v, list) or len(v) != 2:
         return []
     t, c = v
-    if not isinstance(t, cbor2.CBORTag) or not isinstance(c, int) or isinstance(c, bool) or c < 0:
+    if not isinstance(t, _cb.CbTag) or not isinstance(t.value, bytes) or _uint(c) is None:
         return []
-    if not isinstance(t.value, bytes):
-        return []
-    return [t.tag, t.value, c]
+    return [t.tag, t.value, _uint(c)]
 
 
 def byron_parse_payload(b):
-    ok, v = _loads(b)
-    if not ok or not isinstance(v, (list, tuple)) or len(v) != 3:
+    try:
+        v = _cb.cb_one(bytes(b))
+    except ValueError:
+        return []
+    if not isinstance(v, list) or len(v) != 3:
         return []
     rh, attrs, ty = v
-    if not isinstance(rh, bytes) or not isinstance(attrs, dict) or not isinstance(ty, int) or isinstance(ty, bool) or ty < 0:
+    if not isinstance(rh, bytes) or not isinstance(attrs, dict) or _uint(ty) is None:
         return []
     if len(attrs) > 2 or (len(attrs) != 0 and 1 not in attrs and 2 not in attrs):
         return []
-    if 1 in attrs and not isinstance(attrs[1], bytes):
+    if not all(isinstance(x, bytes) for x in attrs.values()):
         return []
-    if 2 in attrs:
-        ok2, _ = _loads(attrs[2]) if isinstance(attrs[2], bytes) else (False, None)
-        if not ok2:
-            return []
-    return [rh, [attrs[1]] if 1 in attrs else [], ty]
+    if 2 in attrs and not _cbor2_loads_ok(attrs[2]):
+        return []
+    return [rh, [attrs[1]] if 1 in attrs else [], _uint(ty)]
 
 
 def cbor_parse_bytes(b):
-    """What attribute 1 (cbor2.loads of its value) contributes to the decoder's result: the bytes of a CBOR byte string;
-    nothing for CBOR null, which the library takes for "no HD path" (hd_path_enc_bytes is None); [] = refused."""
-    ok, v = _loads(b)
-    if ok and v is None:
+    """What attribute 1 (the first item of its value) contributes to the decoder's result: the bytes of a CBOR byte
+    string; nothing for CBOR null, which the library takes for "no HD path"; [] = refused."""
+    try:
+        v = _cb.cb_first(bytes(b))
+    except ValueError:
+        return []
+    if v == _cb.CB_NULL:
         return [b""]
-    return [v] if ok and isinstance(v, bytes) else []
+    return [v] if isinstance(v, bytes) else []
 
 
 def sha3_256_(b):
